@@ -4,6 +4,12 @@
 #include <iterator>
 #include <sstream>
 
+// elements that are neither strings nor numbers: join renders them through their own operator<<
+struct Row { std::vector<std::string> fields; std::string inner; };
+static std::ostream& operator<<(std::ostream& os, const Row& r) { return os << nitro::lang::join(r.fields, r.inner); }   // re-enters join
+struct HexNum { long v; };
+static std::ostream& operator<<(std::ostream& os, const HexNum& h) { return os << std::hex << h.v; }                     // leaves hex set
+
 static std::string run_case(const std::vector<std::string>& w)
 {
     using namespace vh;
@@ -50,6 +56,25 @@ static std::string run_case(const std::vector<std::string>& w)
         std::vector<std::string> again{ std::istream_iterator<std::string>(in2), std::istream_iterator<std::string>() };
         if (again != l) return "BADCASE";
         return "S " + hex(a);
+    }
+    if (w.size() == 4 && w[0] == "joinn")
+    {
+        // rows of fields: the element's operator<< calls join itself
+        std::vector<Row> rows;
+        if (w[3] != ".") for (auto& r : split_on(w[3], '/')) rows.push_back(Row{ unwire_strs(r), unhex(w[2]) });
+        auto a = nitro::lang::join(rows.begin(), rows.end(), unhex(w[1]));
+        return "S " + hex(a);
+    }
+    if (w.size() == 3 && w[0] == "joinh")
+    {
+        // elements whose operator<< changes the formatting state of the stream it is given; afterwards the same numbers as plain longs
+        std::vector<HexNum> hs; std::vector<long> l;
+        if (w[2] != ".") for (auto& e : split_on(w[2], ',')) { l.push_back(std::atol(e.c_str())); hs.push_back(HexNum{ l.back() }); }
+        auto a = nitro::lang::join(hs.begin(), hs.end(), unhex(w[1]));
+        auto b = nitro::lang::join(l.begin(), l.end(), unhex(w[1]));
+        auto c = nitro::lang::join(hs.begin(), hs.end(), unhex(w[1]));
+        if (a != c) return "S-REPEAT-DIFFERS " + hex(a) + " " + hex(c);
+        return "S " + hex(a) + " " + hex(b);
     }
     if (w.size() == 3 && w[0] == "joini")
     {
